@@ -88,6 +88,9 @@ SKELETONS = [
     ('record_field', 'T(y) :- r == {a: 9000, b: 9001}, y == r.a, y == 9002;\n', [[0, 2], [1]], {}, ('T', {0: 0})),
     ('aggregation', 'T(x, s? += 9000) distinct :- x == 9001;\nQ(y) :- T(y, s: z), z == 9002;\n', [[0, 2], [1]], {0: 0}, ('T', {0: 1})),
     ('combine', 'T(x, s) :- x == 9000, s Max= (9001 :- y == 9002, y == x);\n', [[0, 2], [1]], {}, ('T', {0: 0, 1: 1})),
+    ('sibling_combines', 'T(x, a, b) :- x == 9000, a Max= (9001 :- y == 9001), b Max= (z :- z == 9002, z == x);\n', [[0, 2], [1]], {}, ('T', {0: 0, 1: 1, 2: 2})),
+    ('sibling_combines_rev', 'T(x, a, b) :- x == 9000, b Max= (z :- z == 9002, z == x), a Max= (9001 :- y == 9001);\n', [[0, 2], [1]], {}, ('T', {0: 0, 1: 1, 2: 2})),
+    ('sibling_combines_outer_value', 'T(x, a, b) :- x == 9000, a Max= (9001 :- y == 9001), b Max= (x :- z == 9002);\n', [[0], [1], [2]], {}, ('T', {0: 0, 1: 1, 2: 0})),
     ('injected', 'F(x) = x :- x == 9000;\nT(y) :- y == F(9001), y == 9002;\n', [[0, 1, 2]], {}, ('T', {0: 0})),
 ]
 
